@@ -258,6 +258,10 @@ def _config_use_ok(u, par):
             i = p.args.index(child)
             if i < len(callee.params):
                 pn = callee.params[i]
+                if pn == 'max_len' and cn == 'str_to_lines':
+                    return True, 'max_len of str_to_lines'
+                if cn in ('nest', 'Nest') and i == 0:
+                    return True, 'nest amount' 
                 used = [x for x in ast.walk(callee.node) if isinstance(x, ast.Name) and x.id == pn and isinstance(x.ctx, ast.Load)]
                 if not used:
                     return True, 'parameter %s of %s, which never reads it' % (pn, cn)
